@@ -20,7 +20,9 @@ REACH_MIN = {"requests_completed_with_response": {"quick": 600, "thorough": 8100
              "chunked_deliveries": {"quick": 2000, "thorough": 27000},
              "oversize_prefix": {"quick": 10, "thorough": 135},
              "reentrant_actions": {"quick": 100, "thorough": 1350},
-             "bootstrap_scenarios": {"quick": 88, "thorough": 1188}}
+             "bootstrap_scenarios": {"quick": 88, "thorough": 1188},
+             "pattern_lost_with_cancelled": {"quick": 20, "thorough": 500},
+             "pattern_close_cancels_sibling": {"quick": 20, "thorough": 500}}
 
 
 def cases(tier, seed):
@@ -28,6 +30,8 @@ def cases(tier, seed):
     out = [dict(kind="bc", seed=seed * 1000003 + i) for i in range(n)]
     nb = {"quick": 160, "thorough": 4000}[tier]
     out += [dict(kind="bootstrap", seed=seed * 1000033 + i) for i in range(nb)]
+    npat = {"quick": 120, "thorough": 3000}[tier]
+    out += [dict(kind="pattern", seed=seed * 1000037 + i) for i in range(npat)]
     return out
 
 
@@ -293,7 +297,11 @@ def run(spec):
     if spec["kind"] == "bootstrap":
         run_bootstrap(spec, res)
         return res
-    sc = bc.gen_scenario(spec["seed"], spec.get("variant"))
+    if spec["kind"] == "pattern":
+        sc = bc.pattern_scenario(spec["seed"])
+        res.hit("pattern_" + sc["pattern"])
+    else:
+        sc = bc.gen_scenario(spec["seed"], spec.get("variant"))
     tr = bc.run_scenario(sc, debug=spec.get("debug", False))
     tr2 = None
     if any(k in ("unknown_id", "cancelled_id") for (_t, k, _r) in sc["injections"]):
